@@ -63,13 +63,19 @@ TimeOK(bytes) == \E t \in (ev.sec - 3)..ev.sec : SubSeq(bytes, 5, 8) = BE4(t)
 SeqIdx(v) == { i \in DOMAIN seqLog : seqLog[i] = v }
 MinOf(S) == CHOOSE i \in S : \A j \in S : i <= j
 
+\* what the application message q looks like on the wire with the export time the datagram carries
+AppBytes(q) == EncMessage(U16(ev.bytes, 5) * 65536 + U16(ev.bytes, 7), q.seq, dom, SetBytes(q.set))
+\* while the peer was away, application messages were lost: a datagram may be a LATER pending message
+LaterIdx == IF peerGone < 0 THEN {} ELSE { i \in 2..Len(appQ) : ev.bytes = AppBytes(appQ[i]) }
 TRecv ==
   /\ IsEvent("Recv") /\ ~marked
   /\ TimeOK(ev.bytes)
-  /\ IF appQ # << >> /\ ev.bytes = EncMessage(U16(ev.bytes, 5) * 65536 + U16(ev.bytes, 7), Head(appQ).seq, dom, SetBytes(Head(appQ).set))
+  /\ IF appQ # << >> /\ ev.bytes = AppBytes(Head(appQ))
        THEN \* the next application message, whole.  (A refresh with exactly these bytes written just before it is
             \* indistinguishable; taking the datagram as the application's leaves the later state the same.)
             appQ' = Tail(appQ) /\ UNCHANGED << refreshed, seqLog >>
+       ELSE IF LaterIdx # {}
+       THEN appQ' = SubSeq(appQ, MinOf(LaterIdx) + 1, Len(appQ)) /\ UNCHANGED << refreshed, seqLog >>
        ELSE LET tid == U16(ev.bytes, 21)                                   \* a refresh of a template sent so far, whole
                 sq == ToLimbs(ev.bytes, 9) IN
             /\ Len(ev.bytes) >= 24 /\ U16(ev.bytes, 17) = TemplateSetId
